@@ -245,3 +245,210 @@ Proof.
   - (* comment *)
     destruct (skip_comment r) as [a1 b1]; discriminate.
 Qed.
+
+(* ====================================================================== B *)
+(* Number::parse_with_exactness.  No fuel anywhere; the panic sites are
+   P_RADIX (radix outside 2..36), P_DENOM_ZERO and P_I32_OVERFLOW in Ratio::new.
+   Ratio::new is reached (1) from Ratio<i32>::from_str_radix on the text itself and
+   (2) from to_exact (#e) through Rational32::from_f64, whose continued-fraction
+   convergents are never negative.                                              *)
+Section NumberTotal.
+Local Open Scope Z_scope.
+
+(* Ratio::new with a positive denominator never negates: no overflow *)
+Lemma ratio32_new_pos p n d : 0 < d -> exists r, ratio32_new p n d = Ok r.
+Proof.
+  intros Hd. unfold ratio32_new.
+  destruct (d =? 0) eqn:E0; [lia|].
+  destruct (n =? 0); [eauto|]. destruct (n =? d); [eauto|].
+  assert (Hq : 0 <= Z.quot d (Z.gcd n d)).
+  { pose proof (Z.gcd_nonneg n d) as Hg.
+    destruct (Z.eq_dec (Z.gcd n d) 0) as [->|Hne]; [rewrite Z.quot_0_r_ext by reflexivity; lia|].
+    apply Z.quot_pos; lia. }
+  destruct (Z.quot d (Z.gcd n d) <? 0) eqn:E1; [lia|]. eauto.
+Qed.
+
+Lemma char_digit_nonneg c d : char_digit c = Some d -> 0 <= d.
+Proof.
+  unfold char_digit.
+  destruct ((48 <=? c)%N && (c <=? 57)%N) eqn:E1; [intros [= <-]; lia|].
+  destruct ((97 <=? c)%N && (c <=? 122)%N) eqn:E2; [intros [= <-]; lia|].
+  destruct ((65 <=? c)%N && (c <=? 90)%N) eqn:E3; [intros [= <-]; lia|discriminate].
+Qed.
+
+Lemma to_digit_nonneg r c d : to_digit r c = Some d -> 0 <= d.
+Proof.
+  unfold to_digit. destruct (char_digit c) as [d0|] eqn:E; [|discriminate].
+  destruct (d0 <? r); [|discriminate]. intros [= <-]. eapply char_digit_nonneg; eassumption.
+Qed.
+
+Lemma digits_value_nonneg r l : 0 <= r -> forall acc v, 0 <= acc ->
+  digits_value r l acc = Some v -> 0 <= v.
+Proof.
+  intros Hr. induction l as [|c l IH]; cbn [digits_value]; intros acc v Hacc H.
+  - injection H as <-. assumption.
+  - destruct (to_digit r c) as [d|] eqn:E; [|discriminate].
+    apply to_digit_nonneg in E. eapply IH; [|exact H]. nia.
+Qed.
+
+(* a text that does not begin with a sign is read as a non-negative integer *)
+Definition unsigned_head (t : text) : Prop :=
+  match t with c :: _ => c <> 43%N /\ c <> 45%N | [] => True end.
+
+Lemma int_from_str_unsigned lo hi t r v : 0 <= r -> unsigned_head t ->
+  int_from_str_radix lo hi t r = Some v -> 0 <= v.
+Proof.
+  intros Hr Hu. unfold int_from_str_radix. destruct t as [|c t']; [discriminate|].
+  destruct Hu as [H1 H2].
+  destruct ((c =? 43)%N || (c =? 45)%N) eqn:E; [lia|].
+  destruct (digits_value r (c :: t') 0) as [v0|] eqn:Ed; [|discriminate].
+  destruct ((lo <=? v0) && (v0 <=? hi)); [|discriminate]. intros [= <-].
+  eapply digits_value_nonneg; [exact Hr| |exact Ed]. lia.
+Qed.
+
+Lemma split_slash_sound l : forall a b, split_slash l = Some (a, b) -> l = a ++ 47%N :: b.
+Proof.
+  induction l as [|c l IH]; cbn [split_slash]; intros a b H; [discriminate|].
+  destruct (c =? 47)%N eqn:E.
+  - injection H as <- <-. apply N.eqb_eq in E. subst. reflexivity.
+  - destruct (split_slash l) as [[a1 b1]|]; [|discriminate]. injection H as <- <-.
+    cbn [app]. f_equal. apply IH. reflexivity.
+Qed.
+
+(* Ratio<i32>::from_str_radix cannot panic when the denominator text is unsigned *)
+Lemma ratio32_from_str_unsigned_den p t r : 0 <= r ->
+  (forall a b, split_slash t = Some (a, b) -> unsigned_head b) ->
+  exists o, ratio32_from_str_radix p t r = Ok o.
+Proof.
+  intros Hr Hu. unfold ratio32_from_str_radix.
+  destruct (split_slash t) as [[a b]|] eqn:Es; [|eauto].
+  destruct (int_from_str_radix I32_MIN I32_MAX a r) as [n|]; [|eauto].
+  destruct (int_from_str_radix I32_MIN I32_MAX b r) as [d|] eqn:Ed; [|eauto].
+  destruct (d =? 0) eqn:E0; [eauto|].
+  apply int_from_str_unsigned in Ed; [|assumption|eapply Hu; reflexivity].
+  destruct (ratio32_new_pos p n d ltac:(lia)) as (q & ->). cbn [bind]. eauto.
+Qed.
+
+(* ---- (2) the convergents of approximate_float are never negative.  Only integer
+   reasoning: n1*d0 - n0*d1 = +-1 is kept by the recurrence, so the gcd is 1 and a
+   negative partial quotient is stopped by the overflow guard. *)
+Lemma approx_loop_nonneg fuel : forall val q n0 d0 n1 d1,
+  0 <= n0 -> 0 <= d0 -> 0 <= n1 -> 0 <= d1 -> Z.abs (n1 * d0 - n0 * d1) = 1 ->
+  let '(n, d) := approx_loop fuel val q n0 d0 n1 d1 in 0 <= n /\ 0 <= d.
+Proof.
+  induction fuel as [|fu IH]; intros val q n0 d0 n1 d1 Hn0 Hd0 Hn1 Hd1 Hdet; cbn [approx_loop].
+  { split; assumption. }
+  destruct (f64_to_i32 q) as [a|]; [|split; assumption].
+  match goal with |- context [if ?c then _ else _] => destruct c eqn:Eguard end; [split; assumption|].
+  (* the guard is off: a >= 0 *)
+  assert (Ha : 0 <= a).
+  { destruct (Z.ltb_spec a 0) as [Hneg|]; [exfalso|assumption].
+    assert (Hq : Z.quot I32_MAX a <= 0).
+    { rewrite <- (Z.opp_involutive a), Z.quot_opp_r by lia.
+      assert (0 <= Z.quot I32_MAX (- a)) by (apply Z.quot_pos; unfold I32_MAX; lia). lia. }
+    assert (Hpos : 0 < n1 \/ 0 < d1) by nia.
+    destruct (a =? 0) eqn:Ea0; [lia|]. cbn [negb andb] in Eguard.
+    apply Bool.orb_false_iff in Eguard as [Eguard _].
+    apply Bool.orb_false_iff in Eguard as [Eguard _].
+    apply Bool.orb_false_iff in Eguard as [G1 G2]. lia. }
+  set (n := a * n1 + n0). set (d := a * d1 + d0).
+  assert (Hn : 0 <= n) by (unfold n; nia). assert (Hd : 0 <= d) by (unfold d; nia).
+  assert (Hdet' : Z.abs (n * d1 - n1 * d) = 1) by (unfold n, d; nia).
+  assert (Hg : Z.gcd n d = 1).
+  { pose proof (Z.gcd_nonneg n d) as Hg0.
+    assert (Hdiv : (Z.gcd n d | n * d1 - n1 * d)).
+    { apply Z.divide_sub_r.
+      - apply Z.divide_mul_l, Z.gcd_divide_l.
+      - apply Z.divide_mul_r, Z.gcd_divide_r. }
+    apply Z.divide_abs_r in Hdiv. rewrite Hdet' in Hdiv.
+    apply Z.divide_1_r_nonneg in Hdiv; assumption. }
+  rewrite Hg. change (1 =? 0) with false. cbv iota. rewrite !Z.quot_1_r.
+  destruct (f64_ltb _ F_MAX_ERROR); [split; assumption|].
+  destruct (f64_ltb _ _); [split; assumption|].
+  apply IH; assumption.
+Qed.
+
+Lemma ratio32_from_f64_safe p val : exists o, ratio32_from_f64 p val = Ok o.
+Proof.
+  unfold ratio32_from_f64.
+  destruct (f64_is_nan (f64_abs val)); [eauto|].
+  destruct (f64_ltb F_I32_MAX (f64_abs val)); [eauto|].
+  pose proof (approx_loop_nonneg 30 (f64_abs val) (f64_abs val) 0 1 1 0
+                ltac:(lia) ltac:(lia) ltac:(lia) ltac:(lia) eq_refl) as H.
+  destruct (approx_loop 30 (f64_abs val) (f64_abs val) 0 1 1 0) as [n1 d1].
+  destruct H as [Hn Hd].
+  destruct (d1 =? 0) eqn:E0; [eauto|].
+  destruct (ratio32_new_pos p n1 d1 ltac:(lia)) as ([n d] & ->). cbn [bind]. eauto.
+Qed.
+
+Lemma to_exact_safe p n : exists o, to_exact p n = Ok o.
+Proof.
+  destruct n as [z|z|a b|f]; cbn [to_exact]; eauto.
+  destruct (float_is_integer f).
+  - destruct (f64_to_Z f) as [z|]; [|eauto]. destruct (in_i64 z); [eauto|].
+    destruct ((- 2 ^ 127 <=? z) && (z <? 2 ^ 127)); eauto.
+  - destruct (ratio32_from_f64_safe p f) as (o & ->). cbn [bind]. destruct o as [[a b]|]; eauto.
+Qed.
+
+(* THE localized side condition: Ratio<i32>::from_str_radix + reduce on the text
+   does not panic (number.rs:90-122 parse_rational).  After the repair of
+   parse_rational this is a lemma for every text. *)
+Definition rational_ok (sp : text) (r : Z) : Prop :=
+  forall s, parse_rational Debug sp r <> Panic s.
+
+Lemma parse_rational_cases p t r :
+  (exists o, parse_rational p t r = Ok o) \/ (exists s, parse_rational p t r = Panic s).
+Proof.
+  unfold parse_rational. destruct (ratio32_from_str_radix p t r) as [o|e|s|] eqn:E; cbn [bind].
+  - left. destruct o as [[n d]|].
+    + destruct (d =? 1); eauto.
+    + destruct (bigratio_from_str_radix t r) as [[n d]|]; [|eauto]. destruct (d =? 1); eauto.
+  - exfalso. unfold ratio32_from_str_radix in E.
+    destruct (split_slash t) as [[a b]|]; [|discriminate].
+    destruct (int_from_str_radix _ _ a r); [|discriminate].
+    destruct (int_from_str_radix _ _ b r) as [d|]; [|discriminate].
+    destruct (d =? 0); [discriminate|].
+    unfold ratio32_new in E. destruct (d =? 0); [discriminate|].
+    destruct (_ =? 0); [discriminate|]. destruct (_ =? d); [discriminate|].
+    destruct (_ <? 0); [|discriminate].
+    unfold sub_i32 in E. destruct p; repeat (destruct (in_i32 _); cbn [bind] in E); discriminate.
+  - eauto.
+  - exfalso. unfold ratio32_from_str_radix in E.
+    destruct (split_slash t) as [[a b]|]; [|discriminate].
+    destruct (int_from_str_radix _ _ a r); [|discriminate].
+    destruct (int_from_str_radix _ _ b r) as [d|]; [|discriminate].
+    destruct (d =? 0); [discriminate|].
+    unfold ratio32_new in E. destruct (d =? 0); [discriminate|].
+    destruct (_ =? 0); [discriminate|]. destruct (_ =? d); [discriminate|].
+    destruct (_ <? 0); [|discriminate].
+    unfold sub_i32 in E. destruct p; repeat (destruct (in_i32 _); cbn [bind] in E); discriminate.
+Qed.
+
+Lemma parse_rational_unsigned_den p t r : 0 <= r ->
+  (forall a b, split_slash t = Some (a, b) -> unsigned_head b) ->
+  exists o, parse_rational p t r = Ok o.
+Proof.
+  intros Hr Hu. destruct (parse_rational_cases p t r) as [?|(s & Hs)]; [assumption|exfalso].
+  unfold parse_rational in Hs.
+  destruct (ratio32_from_str_unsigned_den p t r Hr Hu) as (o & Ho). rewrite Ho in Hs. cbn [bind] in Hs.
+  destruct o as [[n d]|].
+  - destruct (d =? 1); discriminate.
+  - destruct (bigratio_from_str_radix t r) as [[n d]|]; [|discriminate]. destruct (d =? 1); discriminate.
+Qed.
+
+Theorem parse_with_exactness_safe sp ex r : 2 <= r <= 36 -> rational_ok sp r ->
+  exists o, parse_with_exactness sp ex r = Ok o.
+Proof.
+  intros Hr Hok. unfold parse_with_exactness, parse_with_exactness_p.
+  assert (Hnp : exists o, number_parse Debug sp r = Ok o).
+  { unfold number_parse. destruct ((r <? 2) || (36 <? r)) eqn:Er; [lia|].
+    destruct (int_from_str_radix I64_MIN I64_MAX sp r); [eauto|].
+    destruct (bigint_from_str_radix sp r); [eauto|].
+    destruct (parse_rational_cases Debug sp r) as [(o & Ho)|(s & Hs)]; [|exfalso; eapply Hok; exact Hs].
+    rewrite Ho. cbn [bind]. destruct o; [eauto|]. destruct (f64_from_str_radix sp r); eauto. }
+  destruct Hnp as (o & ->). cbn [bind]. destruct o as [n|]; [|eauto].
+  destruct ex; eauto.
+  destruct (to_exact_safe Debug n) as (e & ->). cbn [bind]. eauto.
+Qed.
+
+End NumberTotal.
